@@ -307,14 +307,22 @@ func (d *Disk) keys() []string {
 }
 
 type simStore struct {
-	e   *Engine
-	url string
+	e      *Engine
+	url    string
+	closed bool // Close() was called on this handle: every later call fails, as with a closed database
 }
+
+var errStoreClosed = errors.New("sim: store is closed")
 
 var errSimStore = errors.New("sim: store i/o error")
 
 func (s *simStore) call(c *StoreCall) {
 	e := s.e
+	if s.isClosed() {
+		c.err = errStoreClosed
+		e.noteClosedUse()
+		return
+	}
 	t := e.curTask()
 	if t == nil || e.plan.InlineStore || t.inAtomic() {
 		// outside the schedule (set-up, restart, atomic section): fault free, inline
@@ -333,7 +341,9 @@ func (s *simStore) Get(key []byte) ([]byte, error) {
 }
 
 func (s *simStore) Set(key []byte, data []byte, ttl time.Duration) error {
-	c := &StoreCall{URL: s.url, Op: "set", Key: string(key), Data: append([]byte(nil), data...), TTL: ttl}
+	// the store may read the caller's buffer at any time until Set returns: the bytes are
+	// taken when the call completes, not when it starts
+	c := &StoreCall{URL: s.url, Op: "set", Key: string(key), Data: data, TTL: ttl}
 	s.call(c)
 	return c.err
 }
@@ -344,7 +354,19 @@ func (s *simStore) Delete(key []byte) error {
 	return c.err
 }
 
-func (s *simStore) Close() error { return nil }
+func (s *simStore) Close() error {
+	s.setClosed(true)
+	return nil
+}
+
+//go:norace
+func (s *simStore) isClosed() bool { return s.closed }
+
+//go:norace
+func (s *simStore) setClosed(v bool) { s.closed = v }
+
+//go:norace
+func (e *Engine) noteClosedUse() { e.closedUse++ }
 
 var _ pikestore.Store = (*simStore)(nil)
 
